@@ -273,7 +273,7 @@ class _TokReader:
         if k == 'D':
             return '(PDang %s %s %s %s %s)' % (coq_oname(self.next()), coq_oname(self.next()), coq_oname(self.next()),
                                               coq_oname(self.next()), self.next())
-        return 'PForeign'
+        return 'PLoose' if k == 'L' else 'PForeign'
 
     def nv(self):
         assert self.next() == 'N'
